@@ -45,7 +45,7 @@ def offer (mt : Metrics) (s : Srv) (now : Nat) (m : Msg) : Srv × List Eff × Fa
       else (s, [], .droppedFull)
   | none =>
     if m.tx = 0 then (s, [exitOf mt now m], .started)
-    else ({ s with serving := some (now + m.tx) }, [.unbusyAt (now + m.tx), exitOf mt now m], .started)
+    else ({ s with serving := some (now + m.tx) }, [exitOf mt now m, .unbusyAt (now + m.tx)], .started)
 
 /-- the service in progress ends at `now`: start waiting messages in FIFO order -/
 def drain (mt : Metrics) (now : Nat) : List Msg → Srv × List Eff × List (Msg × Fate)
@@ -56,7 +56,7 @@ def drain (mt : Metrics) (now : Nat) : List Msg → Srv × List Eff × List (Msg
       (r.1, exitOf mt now m :: r.2.1, (m, .started) :: r.2.2)
     else
       ({ serving := some (now + m.tx), queue := q },
-       [.unbusyAt (now + m.tx), exitOf mt now m], [(m, .started)])
+       [exitOf mt now m, .unbusyAt (now + m.tx)], [(m, .started)])
 
 def unbusy (mt : Metrics) (s : Srv) (now : Nat) : Srv × List Eff × List (Msg × Fate) :=
   drain mt now s.queue
